@@ -7,7 +7,11 @@ const DEFAULT_BUFFER_LEN: usize = if cfg!(test) { 13 } else { 1024 };
 
 pub(crate) struct TextDecoder {
     encoding: AsciiCompatibleEncoding,
+    /// Start of the bytes that were fed but haven't been reported in any chunk yet
+    /// (e.g. the beginning of a multi-byte character held by the streaming decoder)
     pending_source_location_bytes_start: usize,
+    /// End of the bytes fed so far
+    pending_source_location_bytes_end: usize,
     pending_text_streaming_decoder: Option<Decoder>,
     text_buffer: String,
 }
@@ -21,6 +25,7 @@ impl TextDecoder {
     pub fn new(encoding: AsciiCompatibleEncoding) -> Self {
         Self {
             pending_source_location_bytes_start: 0,
+            pending_source_location_bytes_end: 0,
             encoding,
             pending_text_streaming_decoder: None,
             // this will be later initialized to DEFAULT_BUFFER_LEN,
@@ -41,7 +46,7 @@ impl TextDecoder {
     ) -> Result<(), RewritingError> {
         if self.pending_text_streaming_decoder.is_some() {
             self.feed_text(
-                Spanned::new(self.pending_source_location_bytes_start, Bytes::new(&[])),
+                Spanned::new(self.pending_source_location_bytes_end, Bytes::new(&[])),
                 true,
                 output_handler,
             )?;
@@ -58,6 +63,13 @@ impl TextDecoder {
     ) -> Result<(), RewritingError> {
         let mut raw_input = input_span.as_slice();
         let mut next_source_location_bytes_start = input_span.source_location().bytes().start;
+        // Bytes already taken by the streaming decoder, but not reported in any chunk yet,
+        // belong to the next chunk that gets emitted.
+        let mut unreported_bytes_start = if self.pending_text_streaming_decoder.is_some() {
+            self.pending_source_location_bytes_start
+        } else {
+            next_source_location_bytes_start
+        };
 
         let encoding = self.encoding.get();
 
@@ -68,6 +80,7 @@ impl TextDecoder {
             let source_location =
                 SourceLocation::from_start_len(next_source_location_bytes_start, utf8_text.len());
             next_source_location_bytes_start = source_location.bytes().end;
+            unreported_bytes_start = next_source_location_bytes_start;
 
             (output_handler)(utf8_text, really_last, encoding, source_location)?;
 
@@ -92,11 +105,15 @@ impl TextDecoder {
                 decoder.decode_to_str(raw_input, buffer, last_in_text_node);
 
             let finished_decoding = status == CoderResult::InputEmpty;
-            let source_location =
-                SourceLocation::from_start_len(next_source_location_bytes_start, read);
-            next_source_location_bytes_start = source_location.bytes().end;
+            next_source_location_bytes_start += read;
 
             if written > 0 || last_in_text_node {
+                let source_location = SourceLocation::from_start_len(
+                    unreported_bytes_start,
+                    next_source_location_bytes_start.saturating_sub(unreported_bytes_start),
+                );
+                unreported_bytes_start = next_source_location_bytes_start;
+
                 // the last call to feed_text() may make multiple calls to output_handler,
                 // but only one call to output_handler can be *the* last one.
                 let really_last = last_in_text_node && finished_decoding;
@@ -114,7 +131,8 @@ impl TextDecoder {
                 if last_in_text_node {
                     self.pending_text_streaming_decoder = None;
                 } else {
-                    self.pending_source_location_bytes_start = next_source_location_bytes_start;
+                    self.pending_source_location_bytes_start = unreported_bytes_start;
+                    self.pending_source_location_bytes_end = next_source_location_bytes_start;
                 }
                 return Ok(());
             }
